@@ -10,6 +10,9 @@
 (*         left     ms until the retransmission timer fires                 *)
 (*         failAt   the transmission whose socket write fails (0 = none)    *)
 (*         res      none | resp | timeout | closed | writeerr               *)
+(*         phase "writing" / "rewriting": the caller / the timer callback   *)
+(*         is inside conn.WriteTo (first transmission / a retransmission);  *)
+(*         got: what happened meanwhile (none | resp | closed)              *)
 (* The network is the environment: a transmission is lost simply by nobody  *)
 (* answering it; Response(t) is the arrival of a response carrying t's      *)
 (* transaction id at any moment (before, between or after retransmissions,  *)
@@ -24,6 +27,7 @@ CONSTANTS Txns,       \* transaction names
           MaxSend,    \* 7 transmissions in total
           FineTime,   \* TRUE: time also advances by 1 ms and to 1 ms before a timer; FALSE: timer to timer
           SlowWrites, \* BOOLEAN: also explore a first socket write that takes time
+          SlowRtx,    \* "no" | "write": also a RETRANSMISSION whose socket write takes time and may fail | "close": and Close is called meanwhile
           FailAts,    \* which transmission's write may fail: subset of 0..MaxSend (0 = never)
           MaxDepth
 
@@ -39,8 +43,14 @@ Done(t, r) == [txn[t] EXCEPT !.phase = "done", !.res = r, !.left = 0]
 Ret(t, r)  == [k |-> "ret", t |-> t, res |-> r]     \* PerformTransaction returns
 Sent(t, n) == [k |-> "sent", t |-> t, n |-> n]      \* n-th transmission on the wire
 
+\* onRtxTimeout holds the table lock while it is inside conn.WriteTo: PerformTransaction (insert), the inbound path
+\* (lookup), Close and the other timers wait for it.  Nothing else happens in the model until the write returns,
+\* except that Close may be CALLED (CloseBlocked): it must wait too.
+RtxBusy == \E x \in Txns : txn[x].phase = "rewriting"
+
 (* PerformTransaction: insert, write, arm the timer, wait *)
 Start(t, fa) ==
+  /\ ~RtxBusy
   /\ txn[t].phase = "idle" /\ ~closed
   /\ last' = [a |-> "Start", t |-> t, failAt |-> fa]
   /\ IF fa = 1
@@ -55,6 +65,7 @@ Start(t, fa) ==
 (* PerformTransaction whose first socket write is slow: the transaction is already in the table  *)
 (* (and can be answered or closed) while the caller is still inside conn.WriteTo                 *)
 StartSlow(t) ==
+  /\ ~RtxBusy
   /\ txn[t].phase = "idle" /\ ~closed
   /\ last' = [a |-> "StartSlow", t |-> t]
   /\ txn' = [txn EXCEPT ![t] = [Idle EXCEPT !.phase = "writing"]]
@@ -77,7 +88,7 @@ WriteDone(t) ==
 \* inside its socket write it processes nothing else (what arrives meanwhile waits in the socket)
 InboundBusy == \E x \in Txns : txn[x].phase = "writing" /\ txn[x].got = "resp"
 Response(t) ==
-  /\ ~InboundBusy
+  /\ ~InboundBusy /\ ~RtxBusy
   /\ txn[t].phase # "idle"
   /\ last' = [a |-> "Response", t |-> t]
   /\ IF Pending(t)
@@ -88,18 +99,18 @@ Response(t) ==
   /\ UNCHANGED closed
 
 Foreign ==
-  /\ ~InboundBusy
+  /\ ~InboundBusy /\ ~RtxBusy
   /\ last' = [a |-> "Foreign"] /\ UNCHANGED <<txn, closed>> /\ out' = {}
 
 (* an INDICATION that carries the transaction id of t (e.g. a Binding indication used as a keep-alive): not a
    response, completes nothing *)
 Indication(t) ==
-  /\ ~InboundBusy
+  /\ ~InboundBusy /\ ~RtxBusy
   /\ last' = [a |-> "Indication", t |-> t] /\ UNCHANGED <<txn, closed>> /\ out' = {}
 
 (* Client.Close: every waiting caller gets an error *)
 Close ==
-  /\ ~closed
+  /\ ~closed /\ ~RtxBusy
   /\ last' = [a |-> "Close"]
   /\ closed' = TRUE
   /\ txn' = [t \in Txns |-> IF Pending(t) THEN Done(t, "closed")
@@ -116,6 +127,7 @@ Fire(t) ==   \* the record of t after its timer fired
   ELSE IF txn[t].failAt = txn[t].nsent + 1 THEN Done(t, "writeerr")
   ELSE [txn[t] EXCEPT !.nsent = @ + 1, !.ivl = Min(2 * @, MaxIvl), !.left = Min(2 * txn[t].ivl, MaxIvl)]
 Advance(d) ==
+  /\ ~RtxBusy
   /\ Lefts # {} /\ d >= 1 /\ d <= MinLeft
   /\ last' = [a |-> "Advance", d |-> d]
   /\ LET due == {t \in Txns : Pending(t) /\ txn[t].left = d} IN
@@ -125,15 +137,50 @@ Advance(d) ==
                \cup {Sent(t, Fire(t).nsent) : t \in {x \in due : Fire(x).phase = "pending"}}
   /\ UNCHANGED closed
 
+(* a retransmission whose socket write takes time.  The timer of exactly one transaction fires (not its last one), *)
+(* onRtxTimeout takes the table lock and enters conn.WriteTo -- and stays there.                                    *)
+RtxSlow(t) ==
+  /\ ~RtxBusy /\ Pending(t) /\ txn[t].left = MinLeft /\ txn[t].nsent < MaxSend /\ txn[t].failAt = 0
+  /\ \A x \in Txns \ {t} : Pending(x) => txn[x].left > MinLeft
+  /\ last' = [a |-> "RtxSlow", t |-> t, d |-> MinLeft]
+  /\ txn' = [x \in Txns |-> IF x = t THEN [phase |-> "rewriting", nsent |-> txn[t].nsent, ivl |-> txn[t].ivl, left |-> 0, failAt |-> 0,
+                                           res |-> "none", got |-> "none"]
+                            ELSE IF Pending(x) THEN [txn[x] EXCEPT !.left = @ - MinLeft] ELSE txn[x]]
+  /\ out' = {} /\ UNCHANGED closed
+(* Client.Close is called meanwhile: it waits for the table lock, nobody is told anything yet *)
+CloseBlocked ==
+  /\ ~closed /\ \E t \in Txns : txn[t].phase = "rewriting" /\ txn[t].got = "none"
+  /\ last' = [a |-> "CloseBlocked"]
+  /\ txn' = [x \in Txns |-> IF txn[x].phase = "rewriting" THEN [txn[x] EXCEPT !.got = "closed"] ELSE txn[x]]
+  /\ out' = {} /\ UNCHANGED closed
+(* the write returns (ok or with an error); then the waiting Close, if any, goes ahead *)
+RtxWriteDone(t, ok) ==
+  /\ txn[t].phase = "rewriting"
+  /\ last' = [a |-> "RtxWriteDone", t |-> t, ok |-> ok]
+  /\ LET after == IF ok THEN [phase |-> "pending", nsent |-> txn[t].nsent + 1, ivl |-> Min(2 * txn[t].ivl, MaxIvl),
+                                  left |-> Min(2 * txn[t].ivl, MaxIvl), failAt |-> 0, res |-> "none"]
+                       ELSE [phase |-> "done", nsent |-> txn[t].nsent, ivl |-> txn[t].ivl, left |-> 0, failAt |-> 0, res |-> "writeerr"]
+         closing == txn[t].got = "closed"
+         mid == [txn EXCEPT ![t] = after]
+         pend == {x \in Txns : mid[x].phase = "pending"}
+     IN /\ closed' = (closed \/ closing)
+        /\ txn' = IF closing THEN [x \in Txns |-> IF x \in pend THEN [mid[x] EXCEPT !.phase = "done", !.res = "closed", !.left = 0] ELSE mid[x]]
+                  ELSE mid
+        /\ out' = (IF ok THEN {Sent(t, after.nsent)} ELSE {Ret(t, "writeerr")})
+                  \cup (IF closing THEN {Ret(x, "closed") : x \in pend} ELSE {})
+
 Next ==
   \/ \E t \in Txns, fa \in FailAts : Start(t, fa)
   \/ \E t \in Txns : Response(t)
   \/ (SlowWrites /\ \E t \in Txns : StartSlow(t) \/ WriteDone(t))
   \/ Foreign \/ Close \/ (\E t \in Txns : Indication(t))
   \/ \E d \in Jumps : Advance(d)
+  \/ (SlowRtx # "no" /\ ((\E t \in Txns : RtxSlow(t)) \/ (\E t \in Txns, ok \in BOOLEAN : RtxWriteDone(t, ok))))
+  \/ (SlowRtx = "close" /\ CloseBlocked)   \* (bound to the code by the real-time driver: a goroutine waiting for a mutex is invisible to the virtual clock)
 Spec == Init /\ [][Next]_vars
 \* liveness is checked under fairness of time (and nothing else): a pending transaction ends
 FairSpec == Spec /\ WF_vars(\E d \in Jumps : Advance(d)) /\ WF_vars(\E t \in Txns : WriteDone(t))
+                 /\ WF_vars(\E t \in Txns, ok \in BOOLEAN : RtxWriteDone(t, ok))
 View == <<txn, closed>>
 DepthBound == TLCGet("level") <= MaxDepth
 
@@ -155,9 +202,9 @@ C12_Schedule ==
 \* nothing is left behind: a finished transaction has no timer
 C12_NothingLeft == \A t \in Txns : txn[t].phase = "done" => txn[t].left = 0
 \* entries of the transaction table
-InTable(t) == Pending(t) \/ (txn[t].phase = "writing" /\ txn[t].got = "none")
+InTable(t) == Pending(t) \/ (txn[t].phase = "writing" /\ txn[t].got = "none") \/ txn[t].phase = "rewriting"
 \* termination (FairSpec): every pending transaction finishes
-C12_Terminates == \A t \in Txns : (txn[t].phase \in {"pending", "writing"}) ~> (txn[t].phase = "done")
+C12_Terminates == \A t \in Txns : (txn[t].phase \in {"pending", "writing", "rewriting"}) ~> (txn[t].phase = "done")
 
 ASSUME PrintT("META " \o ToJson([Sys |-> "clienttxn", Extra |-> [RTO |-> ToString(RTO)]]))
 EmitEdge ==
